@@ -3,6 +3,11 @@
 import json, subprocess
 ALL=[f"C{i:02d}" for i in range(1,20)]
 CLAIMED={
+ "C04": dict(
+   text="An independent fsck (own decoders, log-aware) is the only oracle of three exhaustive explorations: every state of a breadth-first search over a namespace/data alphabet extended with directory renames, REMOVE/SETATTR on directories and background frees; the final state of every schedule of the C03 harnesses within the bound; the logical disk of every crash image of the C01 crash histories.",
+   note="Trusted: fsck's own reading of the on-disk format (little-endian inode/dirent layout, circular log header). Bounds: as C02/C03/C01 at the tier's depths; capped loss enumeration reported as exhaustive:false.",
+   technique="explicit-state search + schedule exploration + crash-image enumeration of the implementation with a structural invariant (fsck) evaluated in every state/image",
+   ref="DESIGN.md 4 (C04)"),
  "C14": dict(
    text="The C03 harnesses plus shutdown-while-shrinking and statistics-during-RPCs, every schedule within the deviation bound, executed in a -race build whose scheduler hands control between goroutines without creating a happens-before edge, so that the Go race detector judges each explored execution with exactly the program's own synchronisation.",
    note="Trusted: the Go race detector (happens-before races only); the //go:norace hand-off (workers run with GOMAXPROCS=1). A report counts when both access stacks are in go-nfsd/go-journal code. Bounds: harness set, deviation bound 1/2. Replaces the property's free-running stress sub-clause by bounded-exhaustive schedules.",
